@@ -36,10 +36,10 @@ structure Good (M : Msg) : Prop where
   inv : TInv M.headers
   ok : TOk M.headers
 
-theorem setHeader_good (M : Msg) (k v : Bytes) (hM : Good M) (hk : KeyOk k) (hv : ValOk v) :
-    Good (setHeader M k v) ∧ (setHeader M k v).body = M.body ∧
-    StepRel k v (FO M.headers) (FO (setHeader M k v).headers) := by
-  obtain ⟨h1, h2, h3, h4⟩ := setHeader_step M k v hM.inv
+theorem setHeaderRaw_good (M : Msg) (k v : Bytes) (hM : Good M) (hk : KeyOk k) (hv : ValOk v) :
+    Good (setHeaderRaw M k v) ∧ (setHeaderRaw M k v).body = M.body ∧
+    StepRel k v (FO M.headers) (FO (setHeaderRaw M k v).headers) := by
+  obtain ⟨h1, h2, h3, h4⟩ := setHeaderRaw_step M k v hM.inv
   refine ⟨⟨h1, ?_⟩, h2, stepRel_of_tableStep k v _ _ h4⟩
   intro x hx
   rcases h3 x hx with hx | ⟨hxv, hxk⟩
